@@ -82,7 +82,7 @@ def subsequence_decimating(x, y, m):
     dl = np.concatenate([[0.0], d])              # |x[j] - x[j-1]|
     dr = np.concatenate([d, [0.0]])              # |x[j+1] - x[j]|
     nb = np.maximum(ax, np.maximum(np.concatenate([[0.0], ax[:-1]]), np.concatenate([ax[1:], [0.0]])))
-    local = 16 * eps * ((np.arange(n) + 1.0) * np.maximum(dl, dr) + nb)
+    local = (16 * eps * (np.arange(n) + 1.0)) * np.maximum(dl, dr) + 16 * eps * nb     # no overflow up to 1e300
     cnt = (n - 1) // m + 1                      # number of stride-m samples available
     L = min(cnt, len(y))
     idx = np.arange(L) * m
@@ -163,7 +163,7 @@ def with_nyquist(a, b, nyq):
 def band_index(a, b, nyq, scale, zero=BAND_ZERO):
     """Largest harmonic index present in the samples (N/2 if the alternating component is present)."""
     thr = zero * scale
-    amp = np.sqrt(np.abs(a) ** 2 + np.abs(b) ** 2)
+    amp = np.hypot(np.abs(a), np.abs(b))          # no squares: valid for amplitudes 1e-300 .. 1e300
     nz = np.flatnonzero(amp > thr)
     K = int(nz[-1]) if nz.size else 0
     if abs(nyq) > thr:
@@ -178,7 +178,7 @@ def trig_eval(a, b, K, tau, skip_below=0.0):
     cplx = np.iscomplexobj(a) or np.iscomplexobj(b)
     y = np.full(tau.shape, a[0], dtype=complex if cplx else float)
     for k in range(1, K + 1):
-        if math.sqrt(abs(a[k]) ** 2 + abs(b[k]) ** 2) <= skip_below:
+        if math.hypot(abs(a[k]), abs(b[k])) <= skip_below:
             continue
         ang = 2.0 * np.pi * np.mod(k * tau, 1.0)
         y = y + a[k] * np.cos(ang) + b[k] * np.sin(ang)
